@@ -1103,6 +1103,8 @@ func ArgsNames(args []am.ArgsApi) ([]string, error) {
 			ret = append(ret, arg.ArgsState()+"."+name)
 		}
 	}
+	// map iteration order is random
+	slices.Sort(ret)
 
 	return ret, nil
 }
